@@ -9,33 +9,34 @@ META = {
     "level": "exploration",
     "engine": "small",
     "technique": "TLA+ spec TextRepr (constructor pipeline decode/validate/store + comparison model) model-checked with TLC; every TLC-enumerated cell concretised with seeded bytes and decided on the real Text/Identifier constructors, decoders and comparison impls (TABLE binding: spec as enumerator and oracle)",
-    "text": "TLC enumerates 888 construction cells (text|ident x 11 content classes x lengths 0/1/3/21/22/23/1024 around the 22-byte inline limit x 15 paths: FromStr, TryFrom<String>, TryFrom<Text>, TryFrom<&CStr>, serde JSON, postcard, rkyv access / from_bytes / ArchivedIdentifier::deserialize on crafted archives, Add, From<Identifier>, clone, Default, text!/ident! statics) and 3582 comparison cells (same / prefix / first-byte / last-byte relations x static|inline|heap|archived forms), checks ExistsIffValid and CompareByContent on the model, and emits each cell with its outcome. The engine concretises each cell several times with seeded bytes inside the class and decides: value exists iff content valid; an existing value holds exactly the presented content and satisfies its invariant; Eq/Ord/Hash/const_eq/PartialEq<str>/Borrow<str> lookups agree with the contents across storage forms; no panic.",
-    "note": "Exploration: classes and lengths are enumerated exhaustively, bytes inside a class are sampled (reps per cell: 20 quick, 200 thorough). The storage form of a value is not observable (Repr is private): forms are selected through path and length. Macros reject invalid literals at compile time, so the static path is exercised for valid contents only. rkyv access_unchecked (unsafe) is out of scope.",
+    "text": "TLC enumerates 888 construction cells (text|ident x 11 content classes x lengths 0/1/3/21/22/23/1024 around the 22-byte inline limit (thorough: 20 lengths incl. 7/8/9 around rkyv's inline string limit, 63..65, 255/256, 4096) x 15 paths: FromStr, TryFrom<String>, TryFrom<Text>, TryFrom<&CStr>, serde JSON, postcard, rkyv access / from_bytes / ArchivedIdentifier::deserialize on crafted archives, Add, From<Identifier>, clone, Default, text!/ident! statics) and 3582 comparison cells (same / prefix / first-byte / last-byte relations x static|inline|heap|archived forms), checks ExistsIffValid and CompareByContent on the model, and emits each cell with its outcome. The engine concretises each cell several times with seeded bytes inside the class and decides: value exists iff content valid; an existing value holds exactly the presented content and satisfies its invariant; Eq/Ord/Hash/const_eq/PartialEq<str>/Borrow<str> lookups agree with the contents across storage forms; no panic.",
+    "note": "Exploration: classes and lengths are enumerated exhaustively, bytes inside a class are sampled (reps per cell: 20 quick, 300 thorough). The storage form of a value is not observable (Repr is private): forms are selected through path and length. Macros reject invalid literals at compile time, so the static path is exercised for valid contents only. rkyv access_unchecked (unsafe) is out of scope.",
 }
 
-CELLS = 4470
+CELLS = {"MC_TextRepr.cfg": 4470, "MC_TextRepr_thorough.cfg": 12964}
 
 
 def run(ctx):
     ctx.level = "exploration"
     vh = ctx.build("small")
-    reps = 200 if ctx.thorough else 20
+    reps = 300 if ctx.thorough else 20
     if ctx.replay:
         case = json.load(open(ctx.replay))["case"]["input"]
         ctx.absorb(ctx.run_engine(vh, "text", [case], opts={"reps": 200}))
         return
-    r = ctx.tlc("TextRepr", "MC_TextRepr.cfg", timeout=900)
+    cfg = "MC_TextRepr_thorough.cfg" if ctx.thorough else "MC_TextRepr.cfg"
+    r = ctx.tlc("TextRepr", cfg, timeout=900)
     ctx.require_actions(r, ["Decode", "Validate", "Store", "CompareStep"])
     cells = r.replays
-    if len(cells) != CELLS:
-        raise verif.ToolError("expected %d cells, TLC emitted %d" % (CELLS, len(cells)))
+    if len(cells) != CELLS[cfg]:
+        raise verif.ToolError("expected %d cells, TLC emitted %d" % (CELLS[cfg], len(cells)))
     # design switches: a path that skips validation / Ord by storage form must violate the invariants
-    for cfg, inv in (("MC_TextRepr_skip.cfg", "ExistsIffValid"), ("MC_TextRepr_ordform.cfg", "CompareByContent")):
-        rb = ctx.tlc("TextRepr", cfg, allow_violation=True, coverage=False)
+    for bcfg, inv in (("MC_TextRepr_skip.cfg", "ExistsIffValid"), ("MC_TextRepr_ordform.cfg", "CompareByContent")):
+        rb = ctx.tlc("TextRepr", bcfg, allow_violation=True, coverage=False)
         ctx.states -= rb.states
         ctx.transitions -= rb.generated
         if rb.violated != inv:
-            raise verif.ToolError("spec self-test: %s should violate %s, TLC says %r" % (cfg, inv, rb.violated))
+            raise verif.ToolError("spec self-test: %s should violate %s, TLC says %r" % (bcfg, inv, rb.violated))
 
     res = ctx.run_engine(vh, "text", cells, opts={"reps": reps}, timeout=1800)
     if len(res) != len(cells):
@@ -62,6 +63,7 @@ def run(ctx):
     ncons = sum(1 for c in cells if c["mode"] == "construct")
     ctx.cov.update({
         "exhaustive": True,
+        "constants": open(verif.TLA + "/" + cfg).read().split("CONSTANTS")[1].split("INVARIANTS")[0].strip().splitlines(),
         "cells": {"construct": ncons, "compare": len(cells) - ncons},
         "evaluations": sum(int(x.get("evals", 0)) for x in res),
         "distinct_nontrivial": sum(1 for c in cells if c["mode"] == "compare" or not c["exists"]),
